@@ -39,8 +39,8 @@ SPECIAL = [
 
 def build(src):
     if src["kind"] == "cfg_rules":
-        return U.make_cfg([tuple(r) for r in src["rules"]], V=src.get("V"), Sigma=src.get("Sigma"),
-                          eps=src.get("eps", "ε"))
+        return U.make_cfg([tuple(r) for r in src["rules"]], start=src.get("start"), V=src.get("V"),
+                          Sigma=src.get("Sigma"), eps=src.get("eps", "ε"))
     raise ValueError(src)
 
 
